@@ -272,7 +272,7 @@ def run(tier):
                          workers=min(6, vf.NCPU), coverage=(tier == "thorough"))
 
         # ---- B: record concurrent histories from the real backends (race detector on)
-        jobs, first = [], 0
+        first = 0
         tot = {"histories": 0, "events": 0, "ops": 0, "watch_events": 0, "watches": 0, "restores": 0, "stalls": 0, "classes": {}, "max_pending": 0}
         files = []
         with cf.ThreadPoolExecutor(max_workers=plan["par"]) as ex:
